@@ -434,4 +434,154 @@ Section Phases.
         -- intros k' Hk. cbn. apply rs_flag_other. exact Hk.
         -- rewrite Er. cbn. rewrite Efix, Ef. cbn [orb]. repeat split; auto. intro X; discriminate X.
   Qed.
+
+  (* ---- the loop over the disks ---------------------------------------------------------------------------------- *)
+  Section DataPhase.
+    Variable o : copts.
+    Variable c : content.
+    Variable pos : nat.
+    Variable s : rstate.
+    Hypothesis Hplain : plain o.
+    Hypothesis Hsync : stripe_synced c pos.
+    Hypothesis Hlenfs : length (r_fs s) = length (c_disks c).
+    Hypothesis Hfile : forall j f idx b, slot_of c pos j = SFile f idx b ->
+         (0 < block_len bs (cf_size f) idx)%N
+         /\ (forall g, fs_find (r_fs s) j (cf_name f) = Some g -> (ff_size g <= cf_size f)%N)
+         /\ (co_fix o = true \/ fl_missing (get_fl (r_flags s) (j, cf_name f)) = false).
+
+    Definition hash_ok (f : cfile) (idx : nat) (b : fblock) (y : bid) : bool := hval_eqb (hashf y (block_len bs (cf_size f) idx)) (fb_hash b).
+    Definition is_bad (j : nat) : bool :=
+      match slot_of c pos j with
+      | SFile f idx b => match read_block bs s j f idx with Some y => negb (hash_ok f idx b y) | None => true end
+      | _ => false end.
+    Definition bufval (j : nat) : bid :=
+      match slot_of c pos j with
+      | SFile f idx b => match read_block bs s j f idx with Some y => y | None => 0%N end
+      | _ => 0%N end.
+    Definition fent_of (j : nat) : list fent :=
+      match slot_of c pos j with SFile f idx b => if is_bad j then [ent j f idx b true] else [] | _ => [] end.
+    Definition tag_of (j : nat) : list tag :=
+      match slot_of c pos j with
+      | SFile f idx b =>
+          match read_block bs s j f idx with
+          | Some y => if hash_ok f idx b y then [] else [tg K_ERR_DATA [pos; j] [cf_name f; N.of_nat idx]]
+          | None => [tg (if co_fix o || match fs_find (r_fs s) j (cf_name f) with Some _ => true | None => false end then K_ERR_READ else K_ERR_OPEN)
+                        [pos; j] [cf_name f; N.of_nat idx]]
+          end
+      | _ => [] end.
+    (* the file system after the loop: fix creates the missing files (empty) *)
+    Definition fs_after (j' : nat) (n' : N) : option fsfile :=
+      match slot_of c pos j' with
+      | SFile f idx b =>
+          if co_fix o && N.eqb (cf_name f) n'
+          then match fs_find (r_fs s) j' n' with Some g => Some g | None => Some (mkFF n' 0 now 0 (newino j' n') []) end
+          else fs_find (r_fs s) j' n'
+      | _ => fs_find (r_fs s) j' n' end.
+
+    Record dinv (k : nat) (a : dacc) : Prop := {
+      di_buf : da_buf a = map bufval (seq 0 k);
+      di_failed : da_failed a = flat_map fent_of (seq 0 k);
+      di_valid : da_valid a = true;
+      di_used : da_used a = existsb (fun j => slot_has_file (slot_of c pos j)) (seq 0 k);
+      di_core : core2 s (da_st a);
+      di_err : r_err (da_st a) = r_err s + length (da_failed a);
+      di_tags : r_tags (da_st a) = r_tags s ++ flat_map tag_of (seq 0 k);
+      di_fs : forall j' n', fs_find (r_fs (da_st a)) j' n' = if j' <? k then fs_after j' n' else fs_find (r_fs s) j' n';
+      di_flags : forall k', k <= fst k' -> get_fl (r_flags (da_st a)) k' = get_fl (r_flags s) k'
+    }.
+
+    Lemma dinv_0 : dinv 0 (mkDA [] [] true false s).
+    Proof.
+      constructor; cbn; auto; try lia; try apply core2_refl; try (rewrite app_nil_r; reflexivity).
+    Qed.
+
+    Lemma slot_cases j :
+      (slot_of c pos j = SEmpty /\ (nth j (c_disks c) None = None \/ exists d, nth j (c_disks c) None = Some d /\ slot_at d pos = SEmpty))
+      \/ exists d f idx b, nth j (c_disks c) None = Some d /\ slot_at d pos = SFile f idx b /\ slot_of c pos j = SFile f idx b /\ fb_state b = SBlk.
+    Proof.
+      destruct Hsync as [Hs _]. specialize (Hs j). rewrite slot_of_nth in *.
+      destruct (nth j (c_disks c) None) as [d|] eqn:Ed.
+      - destruct (slot_at d pos) as [|f idx b|h] eqn:Es.
+        + left. split; [reflexivity|]. right. exists d. auto.
+        + right. exists d, f, idx, b. simpl in Hs. auto.
+        + simpl in Hs. contradiction.
+      - left. split; [reflexivity|]. left. reflexivity.
+    Qed.
+
+    Lemma dinv_step k a : k < length (c_disks c) -> dinv k a -> dinv (S k) (data_step hashf bs newino now o c pos a k).
+    Proof.
+      intros Hk I.
+      assert (Eseq : seq 0 (S k) = seq 0 k ++ [k]) by (rewrite seq_S; reflexivity).
+      destruct (slot_cases k) as [[Es Hn]|[d [f [idx [b [Ed [Esa [Es Hst]]]]]]]].
+      - (* nothing at this disk position *)
+        assert (Eds : data_step hashf bs newino now o c pos a k = mkDA (da_buf a ++ [0%N]) (da_failed a) (da_valid a) (da_used a) (da_st a)).
+        { unfold data_step. destruct Hn as [Hn|[d [Hd Hsd]]]; [rewrite Hn; reflexivity | rewrite Hd, Hsd; reflexivity]. }
+        rewrite Eds. destruct I. constructor; cbn [da_buf da_failed da_valid da_used da_st]; rewrite ?Eseq; auto.
+        + rewrite map_app. cbn. unfold bufval at 2. rewrite Es. rewrite di_buf0. reflexivity.
+        + rewrite flat_map_app. cbn. unfold fent_of at 2. rewrite Es. rewrite app_nil_r. exact di_failed0.
+        + rewrite existsb_app. cbn. rewrite Es. cbn. rewrite orb_false_r. exact di_used0.
+        + rewrite flat_map_app. cbn. unfold tag_of at 2. rewrite Es. rewrite !app_nil_r. exact di_tags0.
+        + intros j' n'. rewrite di_fs0. destruct (Nat.eq_dec j' k) as [E|E].
+          * subst j'. rewrite Nat.ltb_irrefl. assert (E1 : (k <? S k) = true) by (apply Nat.ltb_lt; lia). rewrite E1.
+            unfold fs_after. rewrite Es. reflexivity.
+          * assert (E1 : (j' <? S k) = (j' <? k)).
+            { destruct (j' <? k) eqn:X; [apply Nat.ltb_lt in X; apply Nat.ltb_lt; lia | apply Nat.ltb_ge in X; apply Nat.ltb_ge; lia]. }
+            rewrite E1. reflexivity.
+        + intros k' Hk'. apply di_flags0. lia.
+      - (* a BLK block *)
+        destruct (Hfile k f idx b Es) as [Hlen [Hsz Hm]].
+        destruct I.
+        assert (Efs : fs_find (r_fs (da_st a)) k (cf_name f) = fs_find (r_fs s) k (cf_name f)) by (rewrite di_fs0, Nat.ltb_irrefl; reflexivity).
+        assert (Erd : read_block bs (da_st a) k f idx = read_block bs s k f idx) by (unfold read_block; rewrite Efs; reflexivity).
+        destruct (data_step_blk o c pos a k d f idx b Hplain Ed Esa Hst) as [s' [x [fe [Eds SO]]]].
+        + destruct di_core0 as [_ [_ [_ [_ [L _]]]]]. rewrite L, Hlenfs. exact Hk.
+        + intros g Hg. apply Hsz. rewrite <- Efs. exact Hg.
+        + destruct Hm as [Hm|Hm]; [left; exact Hm | right]. rewrite di_flags0 by (cbn; lia). exact Hm.
+        + exact Hlen.
+        + rewrite Eds. destruct SO as [SOc SOo SOf SOr]. rewrite Erd in SOr.
+          assert (Hx : x = bufval k /\ fe = fent_of k /\ r_err s' = r_err (da_st a) + length fe /\ r_tags s' = r_tags (da_st a) ++ tag_of k).
+          { unfold bufval, fent_of, tag_of, is_bad, hash_ok. rewrite Es.
+            destruct (read_block bs s k f idx) as [y|] eqn:Er.
+            - destruct SOr as [Ex [_ SOr]]. subst x. destruct (hval_eqb (hashf y (block_len bs (cf_size f) idx)) (fb_hash b)) eqn:Eh; cbn [negb].
+              + destruct SOr as [A [B C]]. subst fe. rewrite app_nil_r. cbn. rewrite Nat.add_0_r. auto.
+              + destruct SOr as [A [B C]]. subst fe. cbn. auto.
+            - destruct SOr as [A [B [C _]]]. subst fe. rewrite Efs in C. cbn. repeat split; auto.
+              (* the buffer entry *)
+              unfold data_step in Eds. rewrite Ed, Esa in Eds. clear - Eds. 
+              assert (X : forall a1 a2 : dacc, a1 = a2 -> da_buf a1 = da_buf a2) by (intros; subst; reflexivity).
+              apply X in Eds. cbn [da_buf] in Eds.
+              repeat match type of Eds with context [match ?q with _ => _ end] => destruct q; cbn [da_buf] in Eds end;
+                apply app_inv_head in Eds; injection Eds as Eds; auto. }
+          destruct Hx as [Hx1 [Hx2 [Hx3 Hx4]]].
+          constructor; cbn [da_buf da_failed da_valid da_used da_st]; rewrite ?Eseq.
+          * rewrite map_app. cbn. rewrite di_buf0, Hx1. reflexivity.
+          * rewrite flat_map_app. cbn. rewrite app_nil_r, di_failed0, Hx2. reflexivity.
+          * exact di_valid0.
+          * rewrite existsb_app. cbn. rewrite Es. cbn. rewrite orb_true_r. reflexivity.
+          * eapply core2_trans; [exact di_core0 | exact SOc].
+          * rewrite app_length, Hx3, di_err0. lia.
+          * rewrite flat_map_app. cbn. rewrite app_nil_r, Hx4, di_tags0, app_assoc. reflexivity.
+          * intros j' n'. destruct (Nat.eq_dec j' k) as [E|E].
+            -- subst j'. assert (E1 : (k <? S k) = true) by (apply Nat.ltb_lt; lia). rewrite E1.
+               unfold fs_after. rewrite Es.
+               destruct (N.eqb (cf_name f) n') eqn:En.
+               ++ apply N.eqb_eq in En. subst n'. rewrite andb_true_r.
+                  destruct (read_block bs s k f idx) as [y|] eqn:Er.
+                  ** destruct SOr as [_ [Efs' _]]. rewrite Efs', Efs.
+                     unfold read_block in Er. destruct (fs_find (r_fs s) k (cf_name f)); [destruct (co_fix o); reflexivity | discriminate].
+                  ** destruct SOr as [_ [_ [_ [Hcheck Hfix]]]]. destruct (co_fix o) eqn:Efix.
+                     --- specialize (Hfix eq_refl). rewrite Efs in Hfix.
+                         destruct (fs_find (r_fs s) k (cf_name f)) eqn:Ef0.
+                         +++ rewrite Hfix. exact Efs.
+                         +++ rewrite Hfix. apply fs_find_put_same.
+                             destruct di_core0 as [_ [_ [_ [_ [L _]]]]]. rewrite L, Hlenfs. exact Hk.
+                     --- rewrite (Hcheck eq_refl). exact Efs.
+               ++ rewrite andb_false_r. rewrite SOo; [rewrite di_fs0, Nat.ltb_irrefl; reflexivity|].
+                  intro X. injection X as X. apply N.eqb_neq in En. congruence.
+            -- assert (E1 : (j' <? S k) = (j' <? k)).
+               { destruct (j' <? k) eqn:X; [apply Nat.ltb_lt in X; apply Nat.ltb_lt; lia | apply Nat.ltb_ge in X; apply Nat.ltb_ge; lia]. }
+               rewrite E1. rewrite SOo by congruence. apply di_fs0.
+          * intros k' Hk'. rewrite SOf; [apply di_flags0; lia|]. intro X. subst k'. cbn in Hk'. lia.
+    Qed.
+  End DataPhase.
 End Phases.
